@@ -1,6 +1,1463 @@
+/-
+  C15 — the validator accepts what the library writes and rejects structural corruption.
+
+  Model of `biom/cli/table_validator.py`:
+    * `TableValidator._validate_json` and every `_valid_*` it calls, over a JSON value type `J`
+      (Python's `json.load` result: null / bool / int / float / str / list / dict with insertion
+      order).  A Python exception (KeyError, TypeError on unpacking, AttributeError on `.lower()`,
+      `reduce` of an empty sequence …) is the explicit verdict `crash`, which is NOT `valid`.
+    * `_validate_hdf5` (format version 2.1, the default) over a logical tree `H5`
+      (attributes, groups, datasets with length and element kind) as far as the code looks.
+    * how `validate-table` turns the result into an exit status.
+    * the writers (`docOf`, `h5Of`), a model of `Table.from_json` + constructor (`loadJson`),
+      and a mutation grammar with `apply` / `applyH`.
+
+  External libraries are parameters: `datetime.strptime` is the oracle `dateOk`, h5py/json are
+  the decoders of the harness, numpy/scipy conversions are exact on the values used.
+-/
 import BiomModel.Codec
 open Lean
+
 namespace Biom.C15
-/-- stub: not built yet -/
-def handle (_req : Json) : Codec.R Json := .error "C15: model not built yet"
+
+/-! ## JSON values as Python sees them -/
+
+inductive J where
+  | null
+  | bool (b : Bool)
+  | int (i : Int)
+  | flt (r : Rat)
+  | str (s : String)
+  | arr (l : List J)
+  | obj (kvs : List (String × J))
+  deriving Repr, Inhabited
+
+mutual
+def J.beq : J → J → Bool
+  | .null, .null => true
+  | .bool a, .bool b => a == b
+  | .int a, .int b => a == b
+  | .flt a, .flt b => a == b
+  | .str a, .str b => a == b
+  | .arr a, .arr b => J.beqL a b
+  | .obj a, .obj b => J.beqO a b
+  | _, _ => false
+def J.beqL : List J → List J → Bool
+  | [], [] => true
+  | x :: xs, y :: ys => J.beq x y && J.beqL xs ys
+  | _, _ => false
+def J.beqO : List (String × J) → List (String × J) → Bool
+  | [], [] => true
+  | (k, x) :: xs, (k', y) :: ys => k == k' && J.beq x y && J.beqO xs ys
+  | _, _ => false
+end
+
+mutual
+theorem J.beq_eq : ∀ a b : J, J.beq a b = true ↔ a = b
+  | .null, b => by cases b <;> simp [J.beq]
+  | .bool a, b => by cases b <;> simp [J.beq]
+  | .int a, b => by cases b <;> simp [J.beq]
+  | .flt a, b => by cases b <;> simp [J.beq]
+  | .str a, b => by cases b <;> simp [J.beq]
+  | .arr a, b => by cases b <;> simp [J.beq, J.beqL_eq]
+  | .obj a, b => by cases b <;> simp [J.beq, J.beqO_eq]
+theorem J.beqL_eq : ∀ a b : List J, J.beqL a b = true ↔ a = b
+  | [], b => by cases b <;> simp [J.beqL]
+  | x :: xs, b => by cases b <;> simp [J.beqL, J.beq_eq, J.beqL_eq]
+theorem J.beqO_eq : ∀ a b : List (String × J), J.beqO a b = true ↔ a = b
+  | [], b => by cases b <;> simp [J.beqO]
+  | (k, x) :: xs, b => by
+    cases b with
+    | nil => simp [J.beqO]
+    | cons h t => obtain ⟨k', y⟩ := h; simp [J.beqO, J.beq_eq, J.beqO_eq, and_assoc]
+end
+
+instance : BEq J := ⟨J.beq⟩
+instance : LawfulBEq J where
+  eq_of_beq h := (J.beq_eq _ _).1 h
+  rfl := (J.beq_eq _ _).2 rfl
+instance : DecidableEq J := fun a b =>
+  if h : J.beq a b = true then isTrue ((J.beq_eq a b).1 h)
+  else isFalse (fun e => h ((J.beq_eq a b).2 e))
+
+inductive Verdict3 where
+  | valid | invalid | crash
+  deriving Repr, DecidableEq, Inhabited
+
+def Verdict3.name : Verdict3 → String
+  | .valid => "valid" | .invalid => "invalid" | .crash => "crash"
+
+/-- exit status of `biom validate-table`: 0 only for a valid table; an uncaught exception is 1 -/
+def exitStatus : Verdict3 → Nat
+  | .valid => 0
+  | _ => 1
+
+/-! ## Python primitives (`none` = an exception is raised) -/
+
+/-- `bool(x)` -/
+def J.truthy : J → Bool
+  | .null => false
+  | .bool b => b
+  | .int i => i != 0
+  | .flt r => r != 0
+  | .str s => s.toList != []
+  | .arr l => !l.isEmpty
+  | .obj k => !k.isEmpty
+
+/-- `TableValidator._is_int`: numpy integer subtype of `type(x)`; `bool` is not one -/
+def J.isInt : J → Bool
+  | .int _ => true
+  | _ => false
+
+def strOfChar (c : Char) : J := .str (String.singleton c)
+
+/-- `iter(x)`: lists give elements, strings give characters, dicts give keys -/
+def pyIter : J → Option (List J)
+  | .arr l => some l
+  | .str s => some (s.toList.map strOfChar)
+  | .obj kvs => some (kvs.map (fun kv => J.str kv.1))
+  | _ => none
+
+/-- `len(x)` -/
+def pyLen (j : J) : Option Nat := (pyIter j).map List.length
+
+def infixOf (p : List Char) : List Char → Bool
+  | [] => p.isEmpty
+  | c :: cs => p.isPrefixOf (c :: cs) || infixOf p cs
+
+/-- `k in x` for a text key `k` -/
+def pyIn (k : String) : J → Option Bool
+  | .obj kvs => some (kvs.any (fun kv => kv.1 == k))
+  | .arr l => some (l.any (fun x => x == J.str k))
+  | .str s => some (infixOf k.toList s.toList)
+  | _ => none
+
+/-- `x[k]` for a text key `k` -/
+def getItem : J → String → Option J
+  | .obj kvs, k => kvs.lookup k
+  | _, _ => none
+
+/-- `x[i]` for a position `i` -/
+def pyIndex : J → Nat → Option J
+  | .arr l, i => l[i]?
+  | .str s, i => (s.toList[i]?).map strOfChar
+  | _, _ => none
+
+/-- `a, b = x` -/
+def unpack2 (j : J) : Option (J × J) :=
+  match pyIter j with
+  | some [a, b] => some (a, b)
+  | _ => none
+
+/-- `len(...) != x` is `False` exactly when `x` is a number equal to the length -/
+def pyEqNat (n : Nat) : J → Bool
+  | .int i => i == (n : Int)
+  | .flt r => r == (n : Rat)
+  | .bool b => (if b then 1 else 0) == n
+  | _ => false
+
+inductive Num where
+  | int (i : Int)
+  | flt (r : Rat)
+  deriving Repr, DecidableEq
+
+/-- `x -= 1` -/
+def sub1 : J → Option Num
+  | .int i => some (.int (i - 1))
+  | .flt r => some (.flt (r - 1))
+  | .bool b => some (.int ((if b then 1 else 0) - 1))
+  | _ => none
+
+/-- `x > n` for an integer `x` -/
+def Num.ltInt : Num → Int → Bool
+  | .int i, x => decide (i < x)
+  | .flt r, x => decide (r < (x : Rat))
+
+inductive DType where
+  | int | float | str
+  deriving Repr, DecidableEq
+
+/-- `TableValidator.ElementTypes` -/
+def elementTypes : List (String × DType) :=
+  [("int", .int), ("str", .str), ("float", .float), ("unicode", .str)]
+
+/-- `ElementTypes[v]` (KeyError / unhashable ⇒ `none`) -/
+def dtypeOf : J → Option DType
+  | .str s => elementTypes.lookup s
+  | _ => none
+
+/-- `isinstance(v, dtype)`; Python's `bool` is an `int` -/
+def isInst : DType → J → Bool
+  | .int, .int _ => true
+  | .int, .bool _ => true
+  | .float, .flt _ => true
+  | .str, .str _ => true
+  | _, _ => false
+
+def tableTypes : List String :=
+  ["otu table", "pathway table", "function table", "ortholog table", "gene table",
+   "metabolite table", "taxon table"]
+
+/-- `s.lower() in TableTypes` (the vocabulary is ASCII, so ASCII lowering decides membership) -/
+def vocabType (s : String) : Bool :=
+  tableTypes.any (fun t => s.toList.map Char.toLower == t.toList)
+
+def lowerIs (s : String) (t : String) : Bool := s.toList.map Char.toLower == t.toList
+
+/-! ## `_validate_json` -/
+
+abbrev KVs := List (String × J)
+
+def formatVersion : String := "1.0.0"
+def formatURL : String := "http://biom-format.org"
+
+def validFormat (v : J) : Option Bool :=
+  some (v == .str "Biological Observation Matrix 1.0.0" || v == .str "1.0.0")
+
+def validUrl (v : J) : Option Bool := some (v == .str formatURL)
+
+/-- `_valid_type`: null and "" give a (non-empty) remark ("" is not in the vocabulary either),
+    other non-strings have no `.lower()` -/
+def validType : J → Option Bool
+  | .null => some false
+  | .str s => some (vocabType s)
+  | _ => none
+
+/-- `key not in record` then `method(record)` -/
+def checkField (r : J) (k : String) (ok : J → Bool) : Option Bool :=
+  match pyIn k r with
+  | none => none
+  | some false => some false
+  | some true =>
+    match getItem r k with
+    | none => none
+    | some v => some (ok v)
+
+def mdOk : J → Bool
+  | .null => true
+  | .obj _ => true
+  | _ => false
+
+/-- the loop of `_valid_rows` / `_valid_columns` (`seen` holds the IDs met so far) -/
+def checkRecords : List J → List J → Option Bool
+  | [], _ => some true
+  | r :: rs, seen =>
+    match checkField r "id" J.truthy with
+    | none => none
+    | some false => some false
+    | some true =>
+      match checkField r "metadata" mdOk with
+      | none => none
+      | some false => some false
+      | some true =>
+        match getItem r "id" with
+        | none => none
+        | some i => if seen.contains i then some false else checkRecords rs (i :: seen)
+
+/-- `ttype = table_json.get('type'); ttype.lower()` -/
+def typeLowerOk (kvs : KVs) : Bool :=
+  match kvs.lookup "type" with
+  | none => true
+  | some .null => true
+  | some (.str _) => true
+  | some _ => false
+
+def validAxis (kvs : KVs) (v : J) : Option Bool :=
+  if typeLowerOk kvs then
+    match pyIter v with
+    | none => none
+    | some l => checkRecords l []
+  else none
+
+def validShape (v : J) : Option Bool :=
+  match unpack2 v with
+  | none => none
+  | some (a, b) => some (a.isInt && b.isInt)
+
+/-- one entry of `_valid_sparse_data`; nothing in the loop body can raise -/
+def coordOk (dt : DType) (nr nc : Num) (c : J) : Bool :=
+  match pyIter c with
+  | some [x, y, v] =>
+    (match x, y with
+     | .int xi, .int yi =>
+       isInst dt v && !(decide (xi < 0) || nr.ltInt xi) && !(decide (yi < 0) || nc.ltInt yi)
+     | _, _ => false)
+  | _ => false
+
+def validSparse (kvs : KVs) (d : J) : Option Bool :=
+  match (kvs.lookup "matrix_element_type").bind dtypeOf with
+  | none => none
+  | some dt =>
+    match (kvs.lookup "shape").bind unpack2 with
+    | none => none
+    | some (a, b) =>
+      match sub1 a with
+      | none => none
+      | some nr =>
+        match sub1 b with
+        | none => none
+        | some nc =>
+          match pyIter d with
+          | none => none
+          | some l => some (l.all (coordOk dt nr nc))
+
+/-- one row of `_valid_dense_data`: `len(row)`, then `reduce(and_, [...])` (raises on `[]`) -/
+def denseRowOk (dt : DType) (c : J) (row : J) : Option Bool :=
+  match pyIter row with
+  | none => none
+  | some els =>
+    if pyEqNat els.length c then
+      (if els.isEmpty then none else some (els.all (isInst dt)))
+    else some false
+
+def denseRows (dt : DType) (c : J) : List J → Option Bool
+  | [] => some true
+  | r :: rs =>
+    match denseRowOk dt c r with
+    | none => none
+    | some false => some false
+    | some true => denseRows dt c rs
+
+def validDense (kvs : KVs) (d : J) : Option Bool :=
+  match (kvs.lookup "matrix_element_type").bind dtypeOf with
+  | none => none
+  | some dt =>
+    match (kvs.lookup "shape").bind unpack2 with
+    | none => none
+    | some (a, b) =>
+      match pyIter d with
+      | none => none
+      | some l =>
+        match denseRows dt b l with
+        | none => none
+        | some false => some false
+        | some true => some (pyEqNat l.length a)
+
+def validData (kvs : KVs) (d : J) : Option Bool :=
+  match kvs.lookup "matrix_type" with
+  | some (.str s) =>
+    if lowerIs s "sparse" then validSparse kvs d
+    else if lowerIs s "dense" then validDense kvs d
+    else some false
+  | _ => none
+
+/-- `x not in {a set of str}`: lists and dicts are unhashable -/
+def hashable : J → Bool
+  | .arr _ => false
+  | .obj _ => false
+  | _ => true
+
+def validMatrixType (v : J) : Option Bool :=
+  if hashable v then some (v == .str "sparse" || v == .str "dense") else none
+
+def validElemType (v : J) : Option Bool :=
+  if hashable v then some (elementTypes.any (fun e => v == .str e.1)) else none
+
+def validGeneratedBy (v : J) : Option Bool := some v.truthy
+
+def validDate (dateOk : String → Bool) : J → Option Bool
+  | .str s => some (dateOk s)
+  | _ => some false
+
+def requiredKeys : List String :=
+  ["format", "format_url", "type", "rows", "columns", "shape", "data", "matrix_type",
+   "matrix_element_type", "generated_by", "id", "date"]
+
+/-- `if key not in table_json: … continue` else `method(table_json)` -/
+def runKey (kvs : KVs) (k : String) (check : J → Option Bool) : Option Bool :=
+  match kvs.lookup k with
+  | none => some false
+  | some v => check v
+
+/-- `len(table_json[axis]) != table_json['shape'][pos]` under the two `in` guards -/
+def crossCheck (kvs : KVs) (axisKey : String) (pos : Nat) : Option Bool :=
+  match kvs.lookup "shape" with
+  | none => some true
+  | some sh =>
+    match kvs.lookup axisKey with
+    | none => some true
+    | some ax =>
+      match pyLen ax with
+      | none => none
+      | some n =>
+        match pyIndex sh pos with
+        | none => none
+        | some d => some (pyEqNat n d)
+
+/-- every check of `_validate_json`, in the order the code runs them -/
+def checksOf (dateOk : String → Bool) (kvs : KVs) : List (Option Bool) :=
+  [ runKey kvs "format" validFormat,
+    runKey kvs "format_url" validUrl,
+    runKey kvs "type" validType,
+    runKey kvs "rows" (validAxis kvs),
+    runKey kvs "columns" (validAxis kvs),
+    runKey kvs "shape" validShape,
+    runKey kvs "data" (validData kvs),
+    runKey kvs "matrix_type" validMatrixType,
+    runKey kvs "matrix_element_type" validElemType,
+    runKey kvs "generated_by" validGeneratedBy,
+    runKey kvs "id" (fun _ => some true),
+    runKey kvs "date" (validDate dateOk),
+    crossCheck kvs "rows" 0,
+    crossCheck kvs "columns" 1 ]
+
+/-- the first raising check aborts the run; otherwise valid iff no check left a report line -/
+def verdictOf (cs : List (Option Bool)) : Verdict3 :=
+  if cs.any (fun c => c.isNone) then .crash
+  else if cs.all (fun c => c == some true) then .valid
+  else .invalid
+
+def reportLines (cs : List (Option Bool)) : Nat := (cs.filter (fun c => c == some false)).length
+
+def validateJson (dateOk : String → Bool) : J → Verdict3
+  | .obj kvs => verdictOf (checksOf dateOk kvs)
+  | j => if requiredKeys.any (fun k => pyIn k j != some false) then .crash else .invalid
+
+def reportLinesJson (dateOk : String → Bool) : J → Nat
+  | .obj kvs => reportLines (checksOf dateOk kvs)
+  | _ => requiredKeys.length
+
+/-! ## The structural facts of a document (declarative, Bool-valued) -/
+
+def topLookup (j : J) (k : String) : Option J :=
+  match j with
+  | .obj kvs => kvs.lookup k
+  | _ => none
+
+/-- the records of an axis (`rows` / `columns`) -/
+def records (j : J) (axisKey : String) : List J := ((topLookup j axisKey).bind pyIter).getD []
+
+def idsOf (j : J) (axisKey : String) : List J := (records j axisKey).filterMap (fun r => getItem r "id")
+
+def nodupB : List J → Bool
+  | [] => true
+  | x :: xs => !xs.contains x && nodupB xs
+
+def requiredKeysB (j : J) : Bool := requiredKeys.all (fun k => (topLookup j k).isSome)
+
+def recordHasFields : J → Bool
+  | .obj kv => (kv.lookup "id").isSome && (kv.lookup "metadata").isSome
+  | _ => false
+
+def recordFieldsB (j : J) : Bool :=
+  (records j "rows").all recordHasFields && (records j "columns").all recordHasFields
+
+/-- the declared shape, when it is a pair of integers -/
+def declShape (j : J) : Option (Int × Int) :=
+  match topLookup j "shape" with
+  | some (.arr [.int r, .int c]) => some (r, c)
+  | _ => none
+
+def shapeB (j : J) : Bool :=
+  match declShape j with
+  | some (r, c) =>
+    (match (topLookup j "rows").bind pyLen, (topLookup j "columns").bind pyLen with
+     | some n, some m => (n : Int) == r && (m : Int) == c
+     | _, _ => false)
+  | none => false
+
+def matrixTypeIs (j : J) (s : String) : Bool := topLookup j "matrix_type" == some (.str s)
+
+def coordInRange (r c : Int) : J → Bool
+  | .arr [.int x, .int y, _] => decide (0 ≤ x) && decide (x < r) && decide (0 ≤ y) && decide (y < c)
+  | _ => false
+
+/-- sparse: every entry is `[int, int, _]` inside the declared shape; dense: the grid has the
+    declared dimensions.  (No claim when shape or data are absent: other conjuncts cover that.) -/
+def coordsB (j : J) : Bool :=
+  match declShape j, topLookup j "data" with
+  | some (r, c), some d =>
+    if matrixTypeIs j "sparse" then
+      (match pyIter d with
+       | some l => l.all (coordInRange r c)
+       | none => false)
+    else if matrixTypeIs j "dense" then
+      (match pyIter d with
+       | some l => ((l.length : Int) == r) && l.all (fun row => (pyLen row).map Int.ofNat == some c)
+       | none => false)
+    else true
+  | _, _ => true
+
+def coordValueTyped (dt : DType) (c : J) : Bool :=
+  match pyIter c with
+  | some [_, _, v] => isInst dt v
+  | _ => true
+
+def typedB (j : J) : Bool :=
+  match (topLookup j "matrix_element_type").bind dtypeOf with
+  | none => false
+  | some dt =>
+    match topLookup j "data" with
+    | none => true
+    | some d =>
+      if matrixTypeIs j "sparse" then ((pyIter d).getD []).all (coordValueTyped dt)
+      else if matrixTypeIs j "dense" then
+        ((pyIter d).getD []).all (fun row => ((pyIter row).getD []).all (isInst dt))
+      else true
+
+def idNonEmpty (r : J) : Bool :=
+  match getItem r "id" with
+  | some v => v.truthy
+  | none => true
+
+def idsNonEmptyB (j : J) : Bool :=
+  (records j "rows").all idNonEmpty && (records j "columns").all idNonEmpty
+
+def idsDistinctB (j : J) : Bool := nodupB (idsOf j "rows") && nodupB (idsOf j "columns")
+
+def mdObjOrNull (r : J) : Bool :=
+  match getItem r "metadata" with
+  | some v => mdOk v
+  | none => true
+
+def mdB (j : J) : Bool := (records j "rows").all mdObjOrNull && (records j "columns").all mdObjOrNull
+
+/-- name ↦ truth of every structural conjunct, in a fixed order -/
+def conjuncts (j : J) : List (String × Bool) :=
+  [ ("requiredKeys", requiredKeysB j), ("recordFields", recordFieldsB j), ("shape", shapeB j),
+    ("coordsInRange", coordsB j), ("elementsTyped", typedB j), ("idsNonEmpty", idsNonEmptyB j),
+    ("idsDistinct", idsDistinctB j), ("mdObjOrNull", mdB j) ]
+
+def structuralB (j : J) : Bool := (conjuncts j).all (fun p => p.2)
+
+/-- the property's notion of a structurally corrupted document -/
+def corrupt (j : J) : Bool := !structuralB j
+
+def violated (j : J) : List String := ((conjuncts j).filter (fun p => !p.2)).map (fun p => p.1)
+
+/-! ## The writer: the document `to_json` denotes -/
+
+structure WTable where
+  obs : List String
+  samp : List String
+  omd : List J
+  smd : List J
+  grid : List (List Rat)
+  ttype : String
+  tableId : String
+  generatedBy : String
+  date : String
+  deriving Repr
+
+def recOf (id : String) (md : J) : J := .obj [("id", .str id), ("metadata", md)]
+
+/-- non-zero entries of row `i`, in column order starting at column `j` -/
+def rowCoords (i : Nat) : Nat → List Rat → List J
+  | _, [] => []
+  | j, v :: vs =>
+    (if v = 0 then [] else [J.arr [.int i, .int j, .flt v]]) ++ rowCoords i (j + 1) vs
+
+def gridCoords : Nat → List (List Rat) → List J
+  | _, [] => []
+  | i, r :: rs => rowCoords i 0 r ++ gridCoords (i + 1) rs
+
+def docKVs (t : WTable) : KVs :=
+       [ ("id", .str t.tableId),
+         ("format", .str "Biological Observation Matrix 1.0.0"),
+         ("format_url", .str formatURL),
+         ("matrix_type", .str "sparse"),
+         ("generated_by", .str t.generatedBy),
+         ("date", .str t.date),
+         ("type", .str t.ttype),
+         ("matrix_element_type", .str "float"),
+         ("shape", .arr [.int t.obs.length, .int t.samp.length]),
+         ("data", .arr (gridCoords 0 t.grid)),
+         ("rows", .arr (List.zipWith recOf t.obs t.omd)),
+         ("columns", .arr (List.zipWith recOf t.samp t.smd)) ]
+
+def docOf (t : WTable) : J := .obj (docKVs t)
+
+def strNodupB : List String → Bool
+  | [] => true
+  | x :: xs => !xs.contains x && strNodupB xs
+
+/-- the writer's invariants for a table of the C01/C02 domain with a vocabulary type -/
+def WTable.wfb (dateOk : String → Bool) (t : WTable) : Bool :=
+  decide (1 ≤ t.obs.length) && decide (1 ≤ t.samp.length) &&
+  t.grid.length == t.obs.length && t.grid.all (fun r => r.length == t.samp.length) &&
+  t.omd.length == t.obs.length && t.smd.length == t.samp.length &&
+  t.omd.all mdOk && t.smd.all mdOk &&
+  t.obs.all (fun s => s.toList != []) && t.samp.all (fun s => s.toList != []) &&
+  strNodupB t.obs && strNodupB t.samp &&
+  vocabType t.ttype && t.generatedBy.toList != [] && dateOk t.date
+
+/-! ## The loader: `Table.from_json` + constructor, as far as a validated document reaches -/
+
+structure Loaded where
+  obs : List J
+  samp : List J
+  grid : List (List Rat)
+  deriving Repr
+
+def numVal : J → Option Rat
+  | .int i => some (i : Rat)
+  | .flt r => some r
+  | .bool b => some (if b then 1 else 0)
+  | _ => none
+
+/-- `[x, y, v]` with integer coordinates and a numeric value -/
+def entryOf : J → Option (Int × Int × Rat)
+  | .arr [.int x, .int y, v] => (numVal v).map (fun q => (x, y, q))
+  | _ => none
+
+/-- scipy COO → CSR: the cell is the sum of the entries that name it -/
+def cellSum (es : List (Int × Int × Rat)) (i j : Nat) : Rat :=
+  sumL ((es.filter (fun e => e.1 == (i : Int) && e.2.1 == (j : Int))).map (fun e => e.2.2))
+
+def gridOfEntries (n m : Nat) (es : List (Int × Int × Rat)) : List (List Rat) :=
+  (List.range n).map (fun i => (List.range m).map (fun j => cellSum es i j))
+
+def entryInRange (n m : Nat) (e : Int × Int × Rat) : Bool :=
+  decide (0 ≤ e.1) && decide (e.1 < (n : Int)) && decide (0 ≤ e.2.1) && decide (e.2.1 < (m : Int))
+
+/-- `mapM` in `Option`, written out -/
+def mapOpt {α β : Type} (f : α → Option β) : List α → Option (List β)
+  | [] => some []
+  | x :: xs =>
+    match f x, mapOpt f xs with
+    | some y, some ys => some (y :: ys)
+    | _, _ => none
+
+def denseRowVals : J → Option (List Rat)
+  | .arr l => mapOpt numVal l
+  | _ => none
+
+/-- `MATRIX_ELEMENT_TYPE[...]` of biom/table.py -/
+def loaderDtypes : List String := ["int", "float", "unicode"]
+
+def matrixOf (n m : Nat) (dense : Bool) : J → Option (List (List Rat))
+  | .arr [] => some ((List.range n).map (fun _ => (List.range m).map (fun _ => (0 : Rat))))
+  | .arr l =>
+    if dense then
+      (match mapOpt denseRowVals l with
+       | some g => if g.length == n && g.all (fun r => r.length == m) then some g else none
+       | none => none)
+    else
+      (match mapOpt entryOf l with
+       | some es => if es.all (entryInRange n m) then some (gridOfEntries n m es) else none
+       | none => none)
+  | .obj [] => some ((List.range n).map (fun _ => (List.range m).map (fun _ => (0 : Rat))))
+  | _ => none
+
+def loadJson (j : J) : Option Loaded :=
+  match (topLookup j "columns").bind pyIter, (topLookup j "rows").bind pyIter with
+  | some cols, some rows =>
+    match mapOpt (fun r => getItem r "id") cols, mapOpt (fun r => getItem r "metadata") cols,
+          mapOpt (fun r => getItem r "id") rows, mapOpt (fun r => getItem r "metadata") rows with
+    | some sids, some smd, some oids, some omd =>
+      match topLookup j "matrix_element_type", topLookup j "type", topLookup j "data",
+            topLookup j "date", topLookup j "shape", topLookup j "generated_by" with
+      | some (.str et), some _, some d, some _, some _, some _ =>
+        if loaderDtypes.contains et && smd.all mdOk && omd.all mdOk && nodupB oids && nodupB sids then
+          match matrixOf oids.length sids.length (matrixTypeIs j "dense") d with
+          | some g => some { obs := oids, samp := sids, grid := g }
+          | none => none
+        else none
+      | _, _, _, _, _, _ => none
+    | _, _, _, _ => none
+  | _, _ => none
+
+def numericElem (j : J) : Bool :=
+  topLookup j "matrix_element_type" == some (.str "int") ||
+  topLookup j "matrix_element_type" == some (.str "float")
+
+def isStr : J → Bool
+  | .str _ => true
+  | _ => false
+
+def idsAreStrings (j : J) : Bool := (idsOf j "rows").all isStr && (idsOf j "columns").all isStr
+
+def dataIsList (j : J) : Bool :=
+  match topLookup j "data" with
+  | some (.arr _) => true
+  | _ => false
+
+/-- the grid a document declares: sparse ⇒ sums of the entries, dense ⇒ the rows as written -/
+def declaredGrid (j : J) (n m : Nat) : Option (List (List Rat)) :=
+  match topLookup j "data" with
+  | some d => matrixOf n m (matrixTypeIs j "dense") d
+  | none => none
+
+/-! ## Mutation grammar (JSON) -/
+
+inductive AxisK where
+  | rows | columns
+  deriving Repr, DecidableEq
+
+def AxisK.key : AxisK → String
+  | .rows => "rows"
+  | .columns => "columns"
+
+inductive Mutation where
+  | deleteKey (k : String)
+  | renameKey (k k' : String)
+  | setShape (r c : Int)
+  | shapeRaw (v : J)
+  | appendCoord (c : J)
+  | setData (v : J)
+  | dupId (ax : AxisK) (i j : Nat)
+  | blankId (ax : AxisK) (i : Nat)
+  | setId (ax : AxisK) (i : Nat) (v : J)
+  | setMetadata (ax : AxisK) (i : Nat) (v : J)
+  | deleteField (ax : AxisK) (i : Nat) (field : String)
+  | dropRecord (ax : AxisK) (i : Nat)
+  | appendRecord (ax : AxisK) (r : J)
+  | swapElemType (v : J)
+  | swapMatrixType (v : J)
+  | corruptDate (v : J)
+  | corruptFormat (v : J)
+  | corruptUrl (v : J)
+  | setType (v : J)
+  | setGeneratedBy (v : J)
+  deriving Repr
+
+def Mutation.cls : Mutation → String
+  | .deleteKey _ => "deleteKey" | .renameKey _ _ => "renameKey" | .setShape _ _ => "setShape"
+  | .shapeRaw _ => "shapeRaw" | .appendCoord _ => "appendCoord" | .setData _ => "setData"
+  | .dupId _ _ _ => "dupId" | .blankId _ _ => "blankId" | .setId _ _ _ => "setId"
+  | .setMetadata _ _ _ => "setMetadata" | .deleteField _ _ _ => "deleteField"
+  | .dropRecord _ _ => "dropRecord" | .appendRecord _ _ => "appendRecord"
+  | .swapElemType _ => "swapElemType" | .swapMatrixType _ => "swapMatrixType"
+  | .corruptDate _ => "corruptDate" | .corruptFormat _ => "corruptFormat"
+  | .corruptUrl _ => "corruptUrl" | .setType _ => "setType" | .setGeneratedBy _ => "setGeneratedBy"
+
+/-- `d[k] = v` -/
+def setKV (kvs : KVs) (k : String) (v : J) : KVs :=
+  if kvs.any (fun kv => kv.1 == k) then kvs.map (fun kv => if kv.1 == k then (k, v) else kv)
+  else kvs ++ [(k, v)]
+
+/-- `del d[k]` when present -/
+def eraseK (kvs : KVs) (k : String) : KVs := kvs.filter (fun kv => kv.1 != k)
+
+def modifyAt (f : J → J) : List J → Nat → List J
+  | [], _ => []
+  | x :: xs, 0 => f x :: xs
+  | x :: xs, n + 1 => x :: modifyAt f xs n
+
+def eraseAt : List J → Nat → List J
+  | [], _ => []
+  | _ :: xs, 0 => xs
+  | x :: xs, n + 1 => x :: eraseAt xs n
+
+def updTop (j : J) (f : KVs → KVs) : J :=
+  match j with
+  | .obj kvs => .obj (f kvs)
+  | j => j
+
+/-- `if k in d: d[k] = f(d[k])` -/
+def updKey (j : J) (k : String) (f : J → J) : J :=
+  updTop j (fun kvs => kvs.map (fun kv => if kv.1 == k then (kv.1, f kv.2) else kv))
+
+def updList (f : List J → List J) : J → J
+  | .arr l => .arr (f l)
+  | v => v
+
+def updRecord (j : J) (ax : AxisK) (i : Nat) (f : J → J) : J :=
+  updKey j ax.key (updList (fun l => modifyAt f l i))
+
+def setField (k : String) (v : J) : J → J
+  | .obj kvs => .obj (setKV kvs k v)
+  | r => r
+
+def delField (k : String) : J → J
+  | .obj kvs => .obj (eraseK kvs k)
+  | r => r
+
+def idAt (j : J) (ax : AxisK) (i : Nat) : Option J :=
+  ((records j ax.key)[i]?).bind (fun r => getItem r "id")
+
+def apply : Mutation → J → J
+  | .deleteKey k, j => updTop j (fun kvs => eraseK kvs k)
+  | .renameKey k k', j =>
+    (match topLookup j k with
+     | some v => updTop j (fun kvs => setKV (eraseK kvs k) k' v)
+     | none => j)
+  | .setShape r c, j => updTop j (fun kvs => setKV kvs "shape" (.arr [.int r, .int c]))
+  | .shapeRaw v, j => updTop j (fun kvs => setKV kvs "shape" v)
+  | .appendCoord c, j => updKey j "data" (updList (fun l => l ++ [c]))
+  | .setData v, j => updTop j (fun kvs => setKV kvs "data" v)
+  | .dupId ax i k, j =>
+    (match idAt j ax i with
+     | some v => updRecord j ax k (setField "id" v)
+     | none => j)
+  | .blankId ax i, j => updRecord j ax i (setField "id" (.str ""))
+  | .setId ax i v, j => updRecord j ax i (setField "id" v)
+  | .setMetadata ax i v, j => updRecord j ax i (setField "metadata" v)
+  | .deleteField ax i f, j => updRecord j ax i (delField f)
+  | .dropRecord ax i, j => updKey j ax.key (updList (fun l => eraseAt l i))
+  | .appendRecord ax r, j => updKey j ax.key (updList (fun l => l ++ [r]))
+  | .swapElemType v, j => updTop j (fun kvs => setKV kvs "matrix_element_type" v)
+  | .swapMatrixType v, j => updTop j (fun kvs => setKV kvs "matrix_type" v)
+  | .corruptDate v, j => updTop j (fun kvs => setKV kvs "date" v)
+  | .corruptFormat v, j => updTop j (fun kvs => setKV kvs "format" v)
+  | .corruptUrl v, j => updTop j (fun kvs => setKV kvs "format_url" v)
+  | .setType v, j => updTop j (fun kvs => setKV kvs "type" v)
+  | .setGeneratedBy v, j => updTop j (fun kvs => setKV kvs "generated_by" v)
+
+def applyAll (ms : List Mutation) (j : J) : J := ms.foldl (fun d m => apply m d) j
+
+/-! ## `holds` for JSON documents: stated on the real validator's verdict and the real loader's result -/
+
+structure LoadObs where
+  ok : Bool
+  obs : List String
+  samp : List String
+  grid : List (List Rat)
+  deriving Repr
+
+structure JsonObs where
+  isBase : Bool
+  verdict : Verdict3
+  load : Option LoadObs
+  deriving Repr
+
+def strIds (ids : List J) : List String := ids.filterMap (fun v => match v with | .str s => some s | _ => none)
+
+/-- the loaded table has the declared shape, IDs and values -/
+def loadMatches (j : J) (l : LoadObs) : Bool :=
+  let oids := strIds (idsOf j "rows")
+  let sids := strIds (idsOf j "columns")
+  l.ok && l.obs == oids && l.samp == sids &&
+  declShape j == some ((l.obs.length : Int), (l.samp.length : Int)) &&
+  l.grid.length == l.obs.length && l.grid.all (fun r => r.length == l.samp.length) &&
+  declaredGrid j oids.length sids.length == some l.grid
+
+open Codec in
+def holdsJson (j : J) (o : JsonObs) : Verdict :=
+  allV [
+    chk "written_valid" (!o.isBase || o.verdict == .valid),
+    chk "corrupt_rejected" (!(corrupt j) || o.verdict != .valid),
+    chk "valid_loads"
+      (!(o.verdict == .valid && numericElem j && idsAreStrings j && dataIsList j) ||
+        (match o.load with
+         | some l => loadMatches j l
+         | none => false)) ]
+
+/-! ## HDF5: the logical tree and `_validate_hdf5` (format version 2.1) -/
+
+inductive AVal where
+  | str (s : String)
+  | int (i : Int)
+  | real (r : Rat)
+  | ints (l : List Int)
+  | reals (l : List Rat)
+  | other
+  deriving Repr, DecidableEq
+
+inductive DData where
+  | ints (l : List Int)
+  | reals (n : Nat)
+  | strs (l : List String)
+  | other (n : Nat)
+  deriving Repr, DecidableEq
+
+inductive Node where
+  | group
+  | ds (len : Option Nat) (d : DData)
+  deriving Repr, DecidableEq
+
+abbrev Path := List String
+
+structure H5 where
+  attrs : List (String × AVal)
+  nodes : List (Path × Node)
+  deriving Repr, DecidableEq
+
+def H5.attr (h : H5) (k : String) : Option AVal := h.attrs.lookup k
+def H5.has (h : H5) (p : Path) : Bool := h.nodes.any (fun n => n.1 == p)
+def H5.get (h : H5) (p : Path) : Option Node := h.nodes.lookup p
+def H5.children (h : H5) (p : Path) : List (Path × Node) :=
+  h.nodes.filter (fun n => n.1 != [] && n.1.dropLast == p)
+
+/-- `len(node)`: members of a group, first dimension of a dataset (a scalar dataset raises) -/
+def H5.lenOf (h : H5) (p : Path) : Option Nat :=
+  match h.get p with
+  | some .group => some (h.children p).length
+  | some (.ds len _) => len
+  | none => none
+
+def hUrl : AVal → Option Bool
+  | .str s => some (s == formatURL)
+  | _ => some false
+
+def versionSet : List (List Rat) := [[2, 0], [2, 0, 0], [2, 1], [2, 1, 0]]
+
+/-- `tuple(ver) not in HDF5FormatVersions` -/
+def hVersion : AVal → Option Bool
+  | .ints l => some (versionSet.contains (l.map (fun (i : Int) => (i : Rat))))
+  | .reals l => some (versionSet.contains l)
+  | .str _ => some false
+  | _ => none
+
+def hType : AVal → Option Bool
+  | .str s => some (vocabType s)
+  | _ => none
+
+def unpackA : AVal → Option (AVal × AVal)
+  | .ints [a, b] => some (.int a, .int b)
+  | .reals [a, b] => some (.real a, .real b)
+  | .str s => (match s.toList with
+               | [a, b] => some (.str (String.singleton a), .str (String.singleton b))
+               | _ => none)
+  | _ => none
+
+def aIsInt : AVal → Bool
+  | .int _ => true
+  | _ => false
+
+def hShape (v : AVal) : Option Bool :=
+  match unpackA v with
+  | some (a, b) => some (aIsInt a && aIsInt b)
+  | none => none
+
+def hNnz : AVal → Option Bool
+  | .int i => some (decide (0 ≤ i))
+  | _ => some false
+
+def hGeneratedBy : AVal → Option Bool
+  | .str s => some (s.toList != [])
+  | .int i => some (i != 0)
+  | .real r => some (r != 0)
+  | .ints [i] => some (i != 0)
+  | .reals [r] => some (r != 0)
+  | _ => none
+
+def hDate (dateOk : String → Bool) : AVal → Option Bool
+  | .str s => some (dateOk s)
+  | _ => some false
+
+def attrCheck (h : H5) (k : String) (f : AVal → Option Bool) : Option Bool :=
+  match h.attr k with
+  | none => some false
+  | some v => f v
+
+def requiredAttrs : List String :=
+  ["format-url", "format-version", "type", "shape", "nnz", "generated-by", "id", "creation-date"]
+
+def coreGroups : List Path :=
+  [["observation"], ["sample"], ["observation", "matrix"], ["sample", "matrix"]]
+
+def mdGroups : List Path :=
+  [["observation", "metadata"], ["observation", "group-metadata"],
+   ["sample", "metadata"], ["sample", "group-metadata"]]
+
+def requiredDatasets : List Path :=
+  [["observation", "ids"], ["observation", "matrix", "data"], ["observation", "matrix", "indices"],
+   ["observation", "matrix", "indptr"], ["sample", "ids"], ["sample", "matrix", "data"],
+   ["sample", "matrix", "indices"], ["sample", "matrix", "indptr"]]
+
+def aEqNat (n : Nat) : AVal → Bool
+  | .int i => i == (n : Int)
+  | .real r => r == (n : Rat)
+  | _ => false
+
+/-- `n != len(table.get(path))` — `len(None)` raises -/
+def idsLenCheck (h : H5) (p : Path) (a : AVal) : Option Bool :=
+  match h.lenOf p with
+  | none => none
+  | some n => some (aEqNat n a)
+
+def shapeBlock (h : H5) : List (Option Bool) :=
+  match h.attr "shape" with
+  | none => [some false]
+  | some sv =>
+    match unpackA sv with
+    | none => [none]
+    | some (a, b) =>
+      [ idsLenCheck h ["observation", "ids"] a, idsLenCheck h ["sample", "ids"] b ]
+
+def version21 (h : H5) : Bool := h.attr "format-version" == some (.ints [2, 1])
+
+/-- every child of a metadata group must have one entry per ID (`len` of a scalar raises) -/
+def mdLens (h : H5) (p : Path) (n : Nat) : Option Bool :=
+  match h.get p with
+  | some .group =>
+    (h.children p).foldl (fun acc c =>
+      match acc with
+      | none => none
+      | some false => some false
+      | some true =>
+        match h.lenOf c.1 with
+        | none => none
+        | some k => some (k == n)) (some true)
+  | _ => none
+
+/-- `_valid_hdf5_metadata_v210`: `some true` = no message; it never changes `valid_table` -/
+def mdV210 (h : H5) : Option Bool :=
+  if !(mdGroups.all h.has) then some false
+  else
+    match h.lenOf ["observation", "ids"], h.lenOf ["sample", "ids"] with
+    | some no, some ns =>
+      (match mdLens h ["observation", "metadata"] no with
+       | none => none
+       | some false => some false
+       | some true => mdLens h ["sample", "metadata"] ns)
+    | _, _ => none
+
+/-- the version block only adds report lines (or raises) -/
+def versionBlock (h : H5) : Option Bool :=
+  match h.attr "format-version" with
+  | none => some true
+  | some (.ints l) => if l == [2, 1] then mdV210 h else some false
+  | some (.reals _) => some false
+  | some (.str _) => some false
+  | some _ => none
+
+/-- the checks that decide `valid_table` -/
+def checksH (dateOk : String → Bool) (h : H5) : List (Option Bool) :=
+  [ attrCheck h "format-url" hUrl,
+    attrCheck h "format-version" hVersion,
+    attrCheck h "type" hType,
+    attrCheck h "shape" hShape,
+    attrCheck h "nnz" hNnz,
+    attrCheck h "generated-by" hGeneratedBy,
+    attrCheck h "id" (fun _ => some true),
+    attrCheck h "creation-date" (hDate dateOk) ] ++
+  coreGroups.map (fun p => some (h.has p)) ++
+  requiredDatasets.map (fun p => some (h.has p)) ++
+  shapeBlock h
+
+def validateH5 (dateOk : String → Bool) (h : H5) : Verdict3 :=
+  if (versionBlock h).isNone then .crash else verdictOf (checksH dateOk h)
+
+def reportLinesH5 (dateOk : String → Bool) (h : H5) : Nat :=
+  reportLines (checksH dateOk h) + (if versionBlock h == some false then 1 else 0)
+
+/-! ### structural facts of an HDF5 tree -/
+
+def attrsB (h : H5) : Bool := requiredAttrs.all (fun k => (h.attr k).isSome)
+def coreGroupsB (h : H5) : Bool := coreGroups.all h.has
+def mdGroupsB (h : H5) : Bool := mdGroups.all h.has
+def datasetsB (h : H5) : Bool := requiredDatasets.all h.has
+
+def shapeOfH (h : H5) : Option (Int × Int) :=
+  match h.attr "shape" with
+  | some (.ints [r, c]) => some (r, c)
+  | _ => none
+
+def shapeHB (h : H5) : Bool :=
+  match shapeOfH h, h.lenOf ["observation", "ids"], h.lenOf ["sample", "ids"] with
+  | some (r, c), some n, some m => (n : Int) == r && (m : Int) == c
+  | _, _, _ => false
+
+def intsOf (h : H5) (p : Path) : Option (List Int) :=
+  match h.get p with
+  | some (.ds _ (.ints l)) => some l
+  | _ => none
+
+def strsOf (h : H5) (p : Path) : Option (List String) :=
+  match h.get p with
+  | some (.ds _ (.strs l)) => some l
+  | _ => none
+
+/-- every stored minor index lies inside the other axis (no claim when the dataset is not integer) -/
+def indicesB (h : H5) : Bool :=
+  match shapeOfH h with
+  | some (r, c) =>
+    ((intsOf h ["observation", "matrix", "indices"]).getD []).all (fun x => decide (0 ≤ x) && decide (x < c)) &&
+    ((intsOf h ["sample", "matrix", "indices"]).getD []).all (fun x => decide (0 ≤ x) && decide (x < r))
+  | none => true
+
+def kindNumeric : Node → Bool
+  | .ds _ (.ints _) => true
+  | .ds _ (.reals _) => true
+  | _ => false
+
+def kindInt : Node → Bool
+  | .ds _ (.ints _) => true
+  | _ => false
+
+def kindStr : Node → Bool
+  | .ds _ (.strs _) => true
+  | _ => false
+
+def kindIs (h : H5) (p : Path) (f : Node → Bool) : Bool :=
+  match h.get p with
+  | some n => f n
+  | none => true
+
+/-- matrix values numeric, indices and offsets integer, IDs text -/
+def typedHB (h : H5) : Bool :=
+  kindIs h ["observation", "matrix", "data"] kindNumeric && kindIs h ["sample", "matrix", "data"] kindNumeric &&
+  kindIs h ["observation", "matrix", "indices"] kindInt && kindIs h ["sample", "matrix", "indices"] kindInt &&
+  kindIs h ["observation", "matrix", "indptr"] kindInt && kindIs h ["sample", "matrix", "indptr"] kindInt &&
+  kindIs h ["observation", "ids"] kindStr && kindIs h ["sample", "ids"] kindStr
+
+def idsNonEmptyHB (h : H5) : Bool :=
+  ((strsOf h ["observation", "ids"]).getD []).all (fun s => s.toList != []) &&
+  ((strsOf h ["sample", "ids"]).getD []).all (fun s => s.toList != [])
+
+def idsDistinctHB (h : H5) : Bool :=
+  strNodupB ((strsOf h ["observation", "ids"]).getD []) && strNodupB ((strsOf h ["sample", "ids"]).getD [])
+
+def isGroupOrAbsent (h : H5) (p : Path) : Bool :=
+  match h.get p with
+  | some .group => true
+  | some _ => false
+  | none => true
+
+/-- in a 2.1 file per-ID metadata is a group of datasets (observation axis: `.items()` raises otherwise) -/
+def mdHB (h : H5) : Bool :=
+  !(version21 h && mdGroupsB h) || isGroupOrAbsent h ["observation", "metadata"]
+
+/-- the same for the sample axis; it is reached only when no observation category has a wrong length -/
+def sampleMdHB (h : H5) : Bool :=
+  !(version21 h && mdGroupsB h) || isGroupOrAbsent h ["sample", "metadata"]
+
+/-- conjuncts the validator enforces -/
+def checkedConjunctsH (h : H5) : List (String × Bool) :=
+  [ ("requiredAttrs", attrsB h), ("requiredGroups", coreGroupsB h), ("requiredDatasets", datasetsB h),
+    ("shape", shapeHB h), ("mdIsGroup", mdHB h) ]
+
+/-- conjuncts of the property the validator does not look at (the known finding) -/
+def uncheckedConjunctsH (h : H5) : List (String × Bool) :=
+  [ ("mdGroupsPresent", mdGroupsB h), ("sampleMdIsGroup", sampleMdHB h), ("indicesInRange", indicesB h), ("elementsTyped", typedHB h),
+    ("idsNonEmpty", idsNonEmptyHB h), ("idsDistinct", idsDistinctHB h) ]
+
+def checkedH (h : H5) : Bool := (checkedConjunctsH h).all (fun p => p.2)
+def structuralHB (h : H5) : Bool := checkedH h && (uncheckedConjunctsH h).all (fun p => p.2)
+def corruptH (h : H5) : Bool := !structuralHB h
+
+def violatedH (h : H5) : List String :=
+  (((checkedConjunctsH h) ++ (uncheckedConjunctsH h)).filter (fun p => !p.2)).map (fun p => p.1)
+
+/-! ### the writer's tree -/
+
+def csrIndices (grid : List (List Rat)) : List Int :=
+  grid.flatMap (fun r => (r.zipIdx.filter (fun p => p.1 != 0)).map (fun p => (p.2 : Int)))
+
+def csrIndptr (grid : List (List Rat)) : List Int :=
+  (grid.foldl (fun (acc : List Int × Int) r =>
+    let k := acc.2 + ((r.filter (fun v => v != 0)).length : Int)
+    (acc.1 ++ [k], k)) ([0], 0)).1
+
+def nnzOf (grid : List (List Rat)) : Nat := (grid.map (fun r => (r.filter (fun v => v != 0)).length)).foldl (· + ·) 0
+
+/-- what `to_hdf5` writes, `mdNames` being the metadata categories of each axis -/
+def h5Of (t : WTable) (omdNames smdNames : List String) : H5 :=
+  let gT := transposeGrid t.samp.length t.grid
+  { attrs := [ ("id", .str t.tableId), ("type", .str t.ttype), ("format-url", .str formatURL),
+               ("format-version", .ints [2, 1]), ("generated-by", .str t.generatedBy),
+               ("creation-date", .str t.date), ("shape", .ints [t.obs.length, t.samp.length]),
+               ("nnz", .int (nnzOf t.grid)) ],
+    nodes :=
+      [ (["observation"], .group), (["observation", "matrix"], .group),
+        (["observation", "matrix", "data"], .ds (some (nnzOf t.grid)) (.reals (nnzOf t.grid))),
+        (["observation", "matrix", "indices"], .ds (some (nnzOf t.grid)) (.ints (csrIndices t.grid))),
+        (["observation", "matrix", "indptr"], .ds (some (t.obs.length + 1)) (.ints (csrIndptr t.grid))),
+        (["observation", "ids"], .ds (some t.obs.length) (.strs t.obs)),
+        (["observation", "metadata"], .group), (["observation", "group-metadata"], .group),
+        (["sample"], .group), (["sample", "matrix"], .group),
+        (["sample", "matrix", "data"], .ds (some (nnzOf t.grid)) (.reals (nnzOf t.grid))),
+        (["sample", "matrix", "indices"], .ds (some (nnzOf t.grid)) (.ints (csrIndices gT))),
+        (["sample", "matrix", "indptr"], .ds (some (t.samp.length + 1)) (.ints (csrIndptr gT))),
+        (["sample", "ids"], .ds (some t.samp.length) (.strs t.samp)),
+        (["sample", "metadata"], .group), (["sample", "group-metadata"], .group) ] ++
+      omdNames.map (fun k => (["observation", "metadata", k], Node.ds (some t.obs.length) (.other t.obs.length))) ++
+      smdNames.map (fun k => (["sample", "metadata", k], Node.ds (some t.samp.length) (.other t.samp.length))) }
+
+/-! ### mutation grammar (HDF5) -/
+
+inductive HAxis where
+  | observation | sample
+  deriving Repr, DecidableEq
+
+def HAxis.name : HAxis → String
+  | .observation => "observation"
+  | .sample => "sample"
+
+inductive HMutation where
+  | deleteAttr (k : String)
+  | renameAttr (k k' : String)
+  | setAttr (k : String) (v : AVal)
+  | deleteNode (p : Path)
+  | renameNode (p : Path) (last : String)
+  | setIndex (ax : HAxis) (pos : Nat) (v : Int)
+  | retypeData (ax : HAxis)
+  | retypeIndices (ax : HAxis)
+  | dupId (ax : HAxis) (i j : Nat)
+  | blankId (ax : HAxis) (i : Nat)
+  | dropLastId (ax : HAxis)
+  | groupToDataset (p : Path)
+  deriving Repr
+
+def isPrefixPath (p q : Path) : Bool := p.isPrefixOf q
+
+def setAttrL (as : List (String × AVal)) (k : String) (v : AVal) : List (String × AVal) :=
+  if as.any (fun a => a.1 == k) then as.map (fun a => if a.1 == k then (k, v) else a) else as ++ [(k, v)]
+
+def updNode (h : H5) (p : Path) (f : Node → Node) : H5 :=
+  { h with nodes := h.nodes.map (fun n => if n.1 == p then (n.1, f n.2) else n) }
+
+def setNth {α : Type} (l : List α) (i : Nat) (v : α) : List α := l.set i v
+
+def applyH : HMutation → H5 → H5
+  | .deleteAttr k, h => { h with attrs := h.attrs.filter (fun a => a.1 != k) }
+  | .renameAttr k k', h =>
+    (match h.attr k with
+     | some v => { h with attrs := setAttrL (h.attrs.filter (fun a => a.1 != k)) k' v }
+     | none => h)
+  | .setAttr k v, h => { h with attrs := setAttrL h.attrs k v }
+  | .deleteNode p, h => { h with nodes := h.nodes.filter (fun n => !(isPrefixPath p n.1)) }
+  | .renameNode p last, h =>
+    if h.has p then
+      { h with nodes := h.nodes.map (fun n =>
+          if isPrefixPath p n.1 then (p.dropLast ++ [last] ++ n.1.drop p.length, n.2) else n) }
+    else h
+  | .setIndex ax pos v, h =>
+    updNode h [ax.name, "matrix", "indices"] (fun n =>
+      match n with
+      | .ds len (.ints l) => .ds len (.ints (setNth l pos v))
+      | n => n)
+  | .retypeData ax, h =>
+    updNode h [ax.name, "matrix", "data"] (fun n =>
+      match n with
+      | .ds len (.reals k) => .ds len (.strs (List.replicate k "x"))
+      | n => n)
+  | .retypeIndices ax, h =>
+    updNode h [ax.name, "matrix", "indices"] (fun n =>
+      match n with
+      | .ds len (.ints l) => .ds len (.reals l.length)
+      | n => n)
+  | .dupId ax i j, h =>
+    updNode h [ax.name, "ids"] (fun n =>
+      match n with
+      | .ds len (.strs l) => (match l[i]? with
+                              | some s => .ds len (.strs (setNth l j s))
+                              | none => .ds len (.strs l))
+      | n => n)
+  | .blankId ax i, h =>
+    updNode h [ax.name, "ids"] (fun n =>
+      match n with
+      | .ds len (.strs l) => .ds len (.strs (setNth l i ""))
+      | n => n)
+  | .dropLastId ax, h =>
+    updNode h [ax.name, "ids"] (fun n =>
+      match n with
+      | .ds (some k) (.strs l) => .ds (some (k - 1)) (.strs l.dropLast)
+      | n => n)
+  | .groupToDataset p, h =>
+    if h.has p then
+      { h with nodes := (h.nodes.filter (fun n => !(isPrefixPath p n.1))) ++ [(p, .ds none (.ints [0]))] }
+    else h
+
+def applyAllH (ms : List HMutation) (h : H5) : H5 := ms.foldl (fun d m => applyH m d) h
+
+structure H5Obs where
+  isBase : Bool
+  verdict : Verdict3
+  deriving Repr
+
+open Codec in
+def holdsH5 (h : H5) (o : H5Obs) : Verdict :=
+  allV [
+    chk "written_valid" (!o.isBase || o.verdict == .valid),
+    chk "checked_conjunct_accepted" (checkedH h || o.verdict != .valid),
+    chk "corrupt_rejected" (!(corruptH h) || o.verdict != .valid) ]
+
+/-! ## JSON glue (untrusted by the theorems) -/
+open Codec
+
+partial def asJ (j : Json) : R J :=
+  match j with
+  | .null => pure .null
+  | .bool b => pure (.bool b)
+  | .str s => pure (.str s)
+  | .num _ => do pure (.int (← j.getInt?))
+  | .arr a => do pure (.arr (← a.toList.mapM asJ))
+  | .obj _ =>
+    match j.getObjVal? "f" with
+    | .ok v => do pure (.flt (← asRat v))
+    | .error _ => do
+      let kvs ← listF (fun p => do
+        match (← asArr p) with
+        | [k, v] => pure ((← asStr k), (← asJ v))
+        | _ => .error "kv pair") j "o"
+      pure (.obj kvs)
+
+partial def jToJson : J → Json
+  | .null => .null
+  | .bool b => .bool b
+  | .int i => toJson i
+  | .flt r => Json.mkObj [("f", ratToJson r)]
+  | .str s => .str s
+  | .arr l => .arr (l.map jToJson).toArray
+  | .obj kvs => Json.mkObj [("o", .arr (kvs.map (fun kv => Json.arr #[.str kv.1, jToJson kv.2])).toArray)]
+
+def asAxisK (j : Json) : R AxisK := do
+  match (← asStr j) with
+  | "rows" => pure .rows
+  | "columns" => pure .columns
+  | s => .error s!"bad axis {s}"
+
+def asMutation (j : Json) : R Mutation := do
+  match (← strF j "m") with
+  | "deleteKey" => pure (.deleteKey (← strF j "k"))
+  | "renameKey" => pure (.renameKey (← strF j "k") (← strF j "k2"))
+  | "setShape" => pure (.setShape (← intF j "r") (← intF j "c"))
+  | "shapeRaw" => pure (.shapeRaw (← asJ (← fld j "v")))
+  | "appendCoord" => pure (.appendCoord (← asJ (← fld j "v")))
+  | "setData" => pure (.setData (← asJ (← fld j "v")))
+  | "dupId" => pure (.dupId (← asAxisK (← fld j "ax")) (← natF j "i") (← natF j "j"))
+  | "blankId" => pure (.blankId (← asAxisK (← fld j "ax")) (← natF j "i"))
+  | "setId" => pure (.setId (← asAxisK (← fld j "ax")) (← natF j "i") (← asJ (← fld j "v")))
+  | "setMetadata" => pure (.setMetadata (← asAxisK (← fld j "ax")) (← natF j "i") (← asJ (← fld j "v")))
+  | "deleteField" => pure (.deleteField (← asAxisK (← fld j "ax")) (← natF j "i") (← strF j "k"))
+  | "dropRecord" => pure (.dropRecord (← asAxisK (← fld j "ax")) (← natF j "i"))
+  | "appendRecord" => pure (.appendRecord (← asAxisK (← fld j "ax")) (← asJ (← fld j "v")))
+  | "swapElemType" => pure (.swapElemType (← asJ (← fld j "v")))
+  | "swapMatrixType" => pure (.swapMatrixType (← asJ (← fld j "v")))
+  | "corruptDate" => pure (.corruptDate (← asJ (← fld j "v")))
+  | "corruptFormat" => pure (.corruptFormat (← asJ (← fld j "v")))
+  | "corruptUrl" => pure (.corruptUrl (← asJ (← fld j "v")))
+  | "setType" => pure (.setType (← asJ (← fld j "v")))
+  | "setGeneratedBy" => pure (.setGeneratedBy (← asJ (← fld j "v")))
+  | s => .error s!"bad mutation {s}"
+
+def asVerdict3 (s : String) : R Verdict3 :=
+  match s with
+  | "valid" => pure .valid
+  | "invalid" => pure .invalid
+  | "crash" => pure .crash
+  | s => .error s!"bad verdict {s}"
+
+def asLoadObs (j : Json) : R LoadObs := do
+  match j.getObjVal? "ok" with
+  | .ok t =>
+    pure { ok := true, obs := (← listF asStr t "obs"), samp := (← listF asStr t "samp"),
+           grid := (← listF (asList asRat) t "grid") }
+  | .error _ => pure { ok := false, obs := [], samp := [], grid := [] }
+
+def loadedToJson (l : Option Loaded) : Json :=
+  match l with
+  | none => Json.mkObj [("error", "raise")]
+  | some t => Json.mkObj [("ok", Json.mkObj [("obs", .arr (t.obs.map jToJson).toArray),
+      ("samp", .arr (t.samp.map jToJson).toArray), ("grid", gridToJson t.grid)])]
+
+def handleJson (req : Json) : R Json := do
+  let doc ← asJ (← fld req "doc")
+  let dOk ← boolFD req "date_ok" false
+  let dateOk : String → Bool := fun _ => dOk
+  let verdict ← asVerdict3 (← strF req "verdict")
+  let isBase ← boolFD req "is_base" false
+  let load ← optF asLoadObs req "load"
+  let nlines ← optF asNat req "nlines"
+  let applyAgree ←
+    match optFld req "base" with
+    | none => pure true
+    | some b => do
+      let base ← asJ b
+      let ms ← listF asMutation req "muts"
+      pure (applyAll ms base == doc)
+  let mv := validateJson dateOk doc
+  let ml := reportLinesJson dateOk doc
+  let mload := loadJson doc
+  let h := holdsJson doc { isBase, verdict, load }
+  let linesAgree := match nlines with
+    | some n => mv == .crash || n == ml
+    | none => true
+  let loadAgree := match load with
+    | some l => l.ok == mload.isSome
+    | none => true
+  let agree := applyAgree && mv == verdict && linesAgree && loadAgree
+  let what := (if applyAgree then [] else ["apply"]) ++ (if mv == verdict then [] else ["verdict"]) ++
+    (if linesAgree then [] else ["report_lines"]) ++ (if loadAgree then [] else ["load"])
+  pure (Json.mkObj (verdictToJson h ++ [("agree", .bool agree), ("differs", strsToJson what),
+    ("model", Json.mkObj [("verdict", .str mv.name), ("nlines", toJson ml), ("exit", toJson (exitStatus mv)),
+      ("corrupt", .bool (corrupt doc)), ("violated", strsToJson (violated doc)),
+      ("load", loadedToJson mload)])]))
+
+def asAVal (j : Json) : R AVal := do
+  match (← strF j "t") with
+  | "str" => pure (.str (← strF j "v"))
+  | "int" => pure (.int (← intF j "v"))
+  | "real" => pure (.real (← asRat (← fld j "v")))
+  | "ints" => pure (.ints (← listF asInt j "v"))
+  | "reals" => pure (.reals (← listF asRat j "v"))
+  | _ => pure .other
+
+def asDData (j : Json) : R DData := do
+  match (← strF j "t") with
+  | "ints" => pure (.ints (← listF asInt j "v"))
+  | "reals" => pure (.reals (← natF j "n"))
+  | "strs" => pure (.strs (← listF asStr j "v"))
+  | _ => pure (.other (← natFD j "n" 0))
+
+def asNode (j : Json) : R Node := do
+  match (← strF j "kind") with
+  | "group" => pure .group
+  | _ => pure (.ds (← optF asNat j "len") (← asDData (← fld j "data")))
+
+def asH5 (j : Json) : R H5 := do
+  let attrs ← listF (fun p => do
+    match (← asArr p) with
+    | [k, v] => pure ((← asStr k), (← asAVal v))
+    | _ => .error "attr pair") j "attrs"
+  let nodes ← listF (fun p => do
+    match (← asArr p) with
+    | [k, v] => pure ((← asList asStr k), (← asNode v))
+    | _ => .error "node pair") j "nodes"
+  pure { attrs, nodes }
+
+def asHAxis (j : Json) : R HAxis := do
+  match (← asStr j) with
+  | "observation" => pure .observation
+  | "sample" => pure .sample
+  | s => .error s!"bad axis {s}"
+
+def asHMutation (j : Json) : R HMutation := do
+  match (← strF j "m") with
+  | "deleteAttr" => pure (.deleteAttr (← strF j "k"))
+  | "renameAttr" => pure (.renameAttr (← strF j "k") (← strF j "k2"))
+  | "setAttr" => pure (.setAttr (← strF j "k") (← asAVal (← fld j "v")))
+  | "deleteNode" => pure (.deleteNode (← listF asStr j "p"))
+  | "renameNode" => pure (.renameNode (← listF asStr j "p") (← strF j "last"))
+  | "setIndex" => pure (.setIndex (← asHAxis (← fld j "ax")) (← natF j "pos") (← intF j "v"))
+  | "retypeData" => pure (.retypeData (← asHAxis (← fld j "ax")))
+  | "retypeIndices" => pure (.retypeIndices (← asHAxis (← fld j "ax")))
+  | "dupId" => pure (.dupId (← asHAxis (← fld j "ax")) (← natF j "i") (← natF j "j"))
+  | "blankId" => pure (.blankId (← asHAxis (← fld j "ax")) (← natF j "i"))
+  | "dropLastId" => pure (.dropLastId (← asHAxis (← fld j "ax")))
+  | "groupToDataset" => pure (.groupToDataset (← listF asStr j "p"))
+  | s => .error s!"bad h5 mutation {s}"
+
+/-- node lists are compared as sets of (path, node): h5py's visiting order is not an observation -/
+def sameTree (a b : H5) : Bool :=
+  a.attrs.all (fun x => b.attrs.contains x) && b.attrs.all (fun x => a.attrs.contains x) &&
+  a.nodes.all (fun x => b.nodes.contains x) && b.nodes.all (fun x => a.nodes.contains x)
+
+def handleH5 (req : Json) : R Json := do
+  let tree ← asH5 (← fld req "tree")
+  let dOk ← boolFD req "date_ok" false
+  let dateOk : String → Bool := fun _ => dOk
+  let verdict ← asVerdict3 (← strF req "verdict")
+  let isBase ← boolFD req "is_base" false
+  let nlines ← optF asNat req "nlines"
+  let applyAgree ←
+    match optFld req "base" with
+    | none => pure true
+    | some b => do
+      let base ← asH5 b
+      let ms ← listF asHMutation req "muts"
+      pure (sameTree (applyAllH ms base) tree)
+  let mv := validateH5 dateOk tree
+  let ml := reportLinesH5 dateOk tree
+  let h := holdsH5 tree { isBase, verdict }
+  let linesAgree := match nlines with
+    | some n => mv == .crash || n == ml
+    | none => true
+  let agree := applyAgree && mv == verdict && linesAgree
+  let what := (if applyAgree then [] else ["apply"]) ++ (if mv == verdict then [] else ["verdict"]) ++
+    (if linesAgree then [] else ["report_lines"])
+  pure (Json.mkObj (verdictToJson h ++ [("agree", .bool agree), ("differs", strsToJson what),
+    ("model", Json.mkObj [("verdict", .str mv.name), ("nlines", toJson ml), ("exit", toJson (exitStatus mv)),
+      ("corrupt", .bool (corruptH tree)), ("violated", strsToJson (violatedH tree))])]))
+
+/-- request kinds: {"op":"json", …} and {"op":"h5", …} -/
+def handle (req : Json) : R Json := do
+  match (← strF req "op") with
+  | "json" => handleJson req
+  | "h5" => handleH5 req
+  | s => .error s!"bad op {s}"
+
 end Biom.C15
